@@ -39,9 +39,24 @@ def coq_project():
                        stdout=subprocess.DEVNULL, stderr=subprocess.DEVNULL)
 
 
+def run_translators():
+    """regenerate coq/gen/*.v from /repo (every translator writes its file only when it changed)"""
+    logs = []
+    ok = True
+    for tr in sorted(glob.glob(os.path.join(ROOT, 'translators', '*.py'))):
+        p = subprocess.run([sys.executable, tr], cwd=ROOT, stdout=subprocess.PIPE, stderr=subprocess.STDOUT, text=True,
+                           env=dict(os.environ, VERIF_REPO=REPO))
+        logs.append('%s: rc=%d %s' % (os.path.basename(tr), p.returncode, p.stdout[-1500:]))
+        ok = ok and p.returncode == 0
+    return ok, '\n'.join(logs)
+
+
 def make_coq(targets=None, timeout=1500):
     """returns (ok, log)"""
     with Lock('coq'):
+        tok, tlog = run_translators()
+        if not tok:
+            return False, 'TRANSLATOR FAILED\n' + tlog
         coq_project()
         cmd = ['timeout', str(timeout), 'make', '-j16'] + (targets or [])
         p = subprocess.run(cmd, cwd=COQ, stdout=subprocess.PIPE, stderr=subprocess.STDOUT, text=True)
